@@ -68,6 +68,8 @@ def process_method(self, s, method):
     ('get_call_handles', 'spyne/protocol/_base.py', 'ProtocolMixin', 'get_call_handles', 'whole', '''
 def get_call_handles(self, ctx):
     name = ctx.method_request_string
+    if name is None:
+        return []
     if not name.startswith(HOLE_gch_prefix):
         name = HOLE_gch_fmt % (self.app.interface.get_tns(), name)
     call_handles = self.app.interface.service_method_map.get(name, [])
@@ -95,7 +97,10 @@ def gen_method_request_string(self, ctx):
 def gen_method_request_string(self, ctx):
     mrs, = ctx.in_body_doc.keys()
     if not six.PY2 and isinstance(mrs, bytes):
-        mrs = mrs.decode(self.key_encoding)
+        try:
+            mrs = mrs.decode(self.key_encoding)
+        except UnicodeDecodeError as e:
+            raise MessagePackDecodeError(str(e))
     return HOLE_msgpackdoc_fmt % (self.app.interface.get_tns(), mrs)
 '''),
     ('msgpackrpc', 'spyne/protocol/msgpack.py', 'MessagePackRpc', 'decompose_incoming_envelope', 'mrs', '''
@@ -352,12 +357,29 @@ def _emit(vals, ok, why):
 
 
 def generate(repo):
-    binds = {}
-    try:
-        for key, path, cls, fn, mode, skeleton in SITES:
+    binds, bad = {}, []
+    for key, path, cls, fn, mode, skeleton in SITES:
+        try:
             _match_site(repo, key, path, cls, fn, mode, skeleton, binds)
+        except (TranslateError, SyntaxError, IOError) as e:
+            # every skeleton is tried, so that the report names all the functions that moved
+            bad.append('[skeleton %s] %s: %s' % (key, type(e).__name__, e))
+    try:
+        if bad:
+            raise TranslateError('; '.join(bad))
         vals = {name: _value(name, binds[name]) for name in KINDS}
         text = _emit(vals, True, '')
-    except (TranslateError, SyntaxError, IOError, KeyError) as e:
+    except (TranslateError, KeyError) as e:
         text = _emit(FALLBACK, False, '%s: %s' % (type(e).__name__, e))
     return {'RouteKeys.v': text}
+
+
+def shape_report(gen_dir):
+    """the 'shape mismatch' line of the generated file, or None (read by harness/c11.py)"""
+    try:
+        for line in open(os.path.join(gen_dir, 'RouteKeys.v')):
+            if line.startswith('(* shape mismatch:'):
+                return line.strip()[3:-2].strip()
+    except IOError:
+        return 'Gen/RouteKeys.v is missing'
+    return None
